@@ -96,3 +96,208 @@ def translate_cm(repo):
 if __name__ == "__main__":
     import sys
     print(translate_cm(sys.argv[1] if len(sys.argv) > 1 else "/repo"))
+
+
+# ------------------------------------------------------------------ threshold setting
+def c_maximum(tr, e):
+    a, b = (tr.expr(x) for x in e.args)
+    if a[1] == "Z" and b[1] == "Z":
+        return (f"(Z.max {a[0]} {b[0]})", "Z")
+    return (f"(Qmaximum {tr.coerce(a, 'Q')} {tr.coerce(b, 'Q')})", "Q")
+
+
+def c_minimum(tr, e):
+    a, b = (tr.expr(x) for x in e.args)
+    if a[1] == "Z" and b[1] == "Z":
+        return (f"(Z.min {a[0]} {b[0]})", "Z")
+    return (f"(Qminimum {tr.coerce(a, 'Q')} {tr.coerce(b, 'Q')})", "Q")
+
+
+def c_floor(tr, e):
+    return (f"(Qfloor {tr.coerce(tr.expr(e.args[0]), 'Q')})", "QZ")
+
+
+def c_ceil(tr, e):
+    return (f"(Qceiling {tr.coerce(tr.expr(e.args[0]), 'Q')})", "QZ")
+
+
+def c_astype(tr, e):
+    v = tr.expr(e.func.value)
+    arg = ast.unparse(e.args[0]) if len(e.args) == 1 else None
+    if arg == "float" and v[1] == "LQ":
+        return v
+    if arg == "int" and v[1] == "QZ":
+        return (v[0], "Z")
+    raise Reject(f"astype({arg}) on {v[1]}")
+
+
+def c_item(tr, e):
+    return tr.expr(e.func.value)
+
+
+def c_nextafter(tr, e):
+    x = tr.coerce(tr.expr(e.args[0]), "Q")
+    d = ast.unparse(e.args[1])
+    if d == "-np.inf":
+        return (f"(pred {x})", "Q")
+    if d == "np.inf":
+        return (f"(succ {x})", "Q")
+    raise Reject("nextafter direction " + d)
+
+
+def c_sort(tr, e):
+    return (f"(isort {tr.coerce(tr.expr(e.args[0]), 'LQ')})", "LQ")
+
+
+def c_concatenate(tr, e):
+    if len(e.args) != 1 or not isinstance(e.args[0], ast.List) or len(e.args[0].elts) != 2:
+        raise Reject("concatenate shape")
+    a, b = (tr.coerce(tr.expr(x), "LQ") for x in e.args[0].elts)
+    return (f"({a} ++ {b})", "LQ")
+
+
+def c_threshold_at_ratio(tr, e):
+    if len(e.args) != 5 or e.keywords:
+        raise Reject("_threshold_at_ratio call shape")
+    want = ["LQ", "Q", "B", "L", "M"]
+    args = [tr.coerce(tr.expr(a), w) for a, w in zip(e.args, want)]
+    return (f"(gen_threshold_at_ratio s {' '.join(args)})", "Q")
+
+
+def c_invert(tr, e):
+    if len(e.args) != 4 or e.keywords:
+        raise Reject("_invert_increasing_function call shape")
+    want = ["LQ", "Q", "B", "M"]
+    args = [tr.coerce(tr.expr(a), w) for a, w in zip(e.args, want)]
+    return (f"(gen_inv_incr {' '.join(args)})", "Q")
+
+
+THR_CALLS = {"np.asarray": c_asarray, "len": c_len, "np.maximum": c_maximum, "np.minimum": c_minimum,
+             "np.floor": c_floor, "np.ceil": c_ceil, ".astype": c_astype, "np.nextafter": c_nextafter,
+             "np.sort": c_sort, "np.concatenate": c_concatenate, "self._threshold_at_ratio": c_threshold_at_ratio,
+             "self._invert_increasing_function": c_invert, "left_idx.astype": c_astype, "right_idx.astype": c_astype,
+             "scores.astype": c_astype, "threshold.item": c_item}
+
+PROPS = ["hard_pos_ratio", "hard_neg_ratio", "easy_pos_ratio", "easy_neg_ratio", "nb_easy_samples", "nb_hard_pos",
+         "nb_hard_neg", "nb_hard_samples", "nb_all_pos", "nb_all_neg", "nb_all_samples", "easy_ratio", "hard_ratio"]
+PROP_TYPES = {"hard_pos_ratio": "Q", "hard_neg_ratio": "Q", "easy_pos_ratio": "Q", "easy_neg_ratio": "Q",
+              "nb_easy_samples": "Z", "nb_hard_pos": "Z", "nb_hard_neg": "Z", "nb_hard_samples": "Z",
+              "nb_all_pos": "Z", "nb_all_neg": "Z", "nb_all_samples": "Z", "easy_ratio": "Q", "hard_ratio": "Q"}
+
+
+class ThrTr(Tr):
+    def expr(self, e):
+        # scores[idx], scores[0], scores[-1]
+        if isinstance(e, ast.Subscript) and isinstance(e.value, ast.Name) and e.value.id in self.env:
+            base = self.env[e.value.id]
+            if base[1] == "LQ":
+                if isinstance(e.slice, ast.UnaryOp) and isinstance(e.slice.op, ast.USub) and ast.unparse(e.slice) == "-1":
+                    return (f"(nthZ {base[0]} (len {base[0]} - 1))", "Q")
+                idx = self.coerce(self.expr(e.slice), "Z")
+                return (f"(nthZ {base[0]} {idx})", "Q")
+            if base[1] == "REVDICT":
+                return (f"(reverse_method {self.coerce(self.expr(e.slice), 'M')})", "M")
+        return super().expr(e)
+
+    def coerce(self, e, want):
+        if e[1] == "QZ" and want == "Q":
+            return f"(inject_Z {e[0]})"
+        return super().coerce(e, want)
+
+    def special_stmt(self, s):
+        src = ast.unparse(s)
+        if src == "if method not in {'lower', 'higher', 'linear'}:\n    raise ValueError(f'Unknown interpolation method: {method}.')":
+            return ""   # the method is an enumeration in the model; unknown names are a separate malformed stream
+        if src == "reverse_method = {'lower': 'higher', 'higher': 'lower', 'linear': 'linear'}":
+            self.env["reverse_method"] = ("reverse_method", "REVDICT")
+            return ""
+        if src == "isscalar = np.isscalar(target_ratio)":
+            self.env["isscalar"] = ("isscalar", "SCALARFLAG")
+            return ""
+        if src == "if isscalar:\n    threshold = threshold.item()":
+            return ""   # scalar in, scalar out: shape bookkeeping (C10), not the value
+        # threshold[mask] = value
+        if (isinstance(s, ast.Assign) and isinstance(s.targets[0], ast.Subscript) and isinstance(s.targets[0].value, ast.Name)
+                and s.targets[0].value.id == "threshold"):
+            mask = self.coerce(self.expr(s.targets[0].slice), "B")
+            val = self.coerce(self.expr(s.value), "Q")
+            return f"let threshold := if {mask} then {val} else threshold in"
+        return None
+
+
+def _ret(tr, v):
+    return f"(Ret {tr.coerce(v, 'Q')})"
+
+
+def translate_thresholds(repo):
+    path = os.path.join(repo, "score_analysis", "scores.py")
+    tree = ast.parse(open(path).read())
+    out = [HEADER.format(src="Scores threshold setting").replace("Model.Scores", "Model.Threshold")]
+    props = {}
+    for name in PROPS:
+        fn = find_function(tree, name, cls="Scores")
+        if not any(ast.unparse(d) == "property" for d in fn.decorator_list):
+            raise Reject(f"{name} is not a property")
+        tr = ThrTr(env={}, self_fields=SELF_FIELDS, self_props=dict(props), calls={"len": c_len})
+        body = tr.block(strip_doc(fn.body))
+        ty = {"Q": "Q", "Z": "Z"}[PROP_TYPES[name]]
+        if PROP_TYPES[name] == "Q":
+            body = f"({body} : Q)"
+        out.append(f"Definition gen_{name} (s : scores) : {ty} :=\n  {body}.\n")
+        props[name] = (f"(gen_{name} s)", PROP_TYPES[name])
+    out.append("Section Gen.\nVariable succ pred : Q -> Q.\n")
+    # _invert_increasing_function
+    fn = find_function(tree, "_invert_increasing_function", cls="Scores")
+    if [a.arg for a in fn.args.args] != ["scores", "target_ratio", "left_continuous", "method"]:
+        raise Reject("_invert_increasing_function signature")
+    tr = ThrTr(env={"scores": ("scores", "LQ"), "target_ratio": ("target_ratio", "Q"),
+                    "left_continuous": ("left_continuous", "B"), "method": ("method", "M")}, calls=THR_CALLS)
+    body = tr.block(strip_doc(fn.body))
+    out.append("Definition gen_inv_incr (scores : list Q) (target_ratio : Q) (left_continuous : bool) (method : method) : Q :=\n  "
+               + body + ".\n")
+    # _threshold_at_ratio
+    fn = find_function(tree, "_threshold_at_ratio", cls="Scores")
+    if [a.arg for a in fn.args.args] != ["self", "scores", "target_ratio", "increasing", "ratio_class", "method"]:
+        raise Reject("_threshold_at_ratio signature")
+    tr = ThrTr(env={"scores": ("scores", "LQ"), "target_ratio": ("target_ratio", "Q"), "increasing": ("increasing", "B"),
+                    "ratio_class": ("ratio_class", "L"), "method": ("method", "M")},
+               self_fields=SELF_FIELDS, calls=THR_CALLS)
+    body = tr.block(strip_doc(fn.body))
+    out.append("Definition gen_threshold_at_ratio (s : scores) (scores : list Q) (target_ratio : Q) (increasing : bool) "
+               "(ratio_class : label) (method : method) : Q :=\n  " + body + ".\n")
+    for metric in ("tpr", "fnr", "tnr", "fpr", "topr", "tonr"):
+        fn = find_function(tree, "threshold_at_" + metric, cls="Scores")
+        if [a.arg for a in fn.args.args] != ["self", metric] or [a.arg for a in fn.args.kwonlyargs] != ["method"]:
+            raise Reject(f"threshold_at_{metric} signature")
+        if ast.unparse(fn.args.kw_defaults[0]) != "'linear'":
+            raise Reject(f"threshold_at_{metric} default method")
+        tr = ThrTr(env={metric: (metric, "Q"), "method": ("method", "M")}, self_fields=SELF_FIELDS, self_props=props,
+                   calls=THR_CALLS, ret_wrap=_ret)
+        body = tr.block(strip_doc(fn.body))
+        out.append(f"Definition gen_threshold_at_{metric} (s : scores) ({metric} : Q) (method : method) : res Q :=\n  {body}.\n")
+    out.append("End Gen.\n")
+    # aliases: name -> (target function, keyword)
+    al = []
+    for alias, target in (("tar", "tpr"), ("frr", "fnr"), ("trr", "tnr"), ("far", "fpr"),
+                          ("acceptance_rate", "topr"), ("rejection_rate", "tonr")):
+        fn = find_function(tree, "threshold_at_" + alias, cls="Scores")
+        body = strip_doc(fn.body)
+        want = f"return self.threshold_at_{target}({target}={alias}, method=method)"
+        if len(body) != 1 or ast.unparse(body[0]) != want:
+            raise Reject(f"alias threshold_at_{alias}: {ast.unparse(body[0]) if body else ''}")
+        fn2 = find_function(tree, alias, cls="Scores")
+        b2 = strip_doc(fn2.body)
+        if len(b2) != 1 or ast.unparse(b2[0]) != f"return self.{target}(threshold)":
+            raise Reject(f"alias {alias}")
+        al.append(alias)
+    for rate_name in ("tpr", "fnr", "tnr", "fpr", "topr", "tonr"):
+        fn = find_function(tree, rate_name, cls="Scores")
+        b = strip_doc(fn.body)
+        if len(b) != 1 or ast.unparse(b[0]) != f"return self.cm(threshold).{rate_name}()":
+            raise Reject(f"rate method {rate_name}")
+    out.append(f"Definition gen_aliases_checked : nat := {len(al)}.\n")
+    return "".join(out)
+
+
+if __name__ == "__main__" and len(__import__('sys').argv) > 2:
+    print(translate_thresholds(__import__('sys').argv[1]))
